@@ -19,6 +19,10 @@ mod hints;
 pub mod replay;
 pub mod trace;
 
+#[cfg(feature = "__verif")]
+#[doc(hidden)]
+pub mod verif_hooks;
+
 pub use hints::{
     CandidateValue, DynamicallyResolvedValue, EdgeInfo, NeighborInfo, QueryInfo, Range,
     RequiredProperty, ResolveEdgeInfo, ResolveInfo, VertexInfo,
